@@ -40,6 +40,7 @@ class Gen:
         self.main = {"A": "main.asm", "B": "proj/main.asm", "C": self.proj + "/main.asm"}[self.mode]
         self.exited = False
         self.max_depth = rng.choice([1, 2, 2, 3, 4])
+        self.seg = "c"
 
     def sym(self):
         self.nsym += 1
@@ -52,6 +53,20 @@ class Gen:
         pending_ipath = []
         for _ in range(n):
             r = rng.random()
+            # the current segment is part of what crosses a file boundary, in both directions: a file may end (or .exit) in
+            # another segment than it was entered in, and what follows the .include in the includer is written for that segment
+            if rng.random() < 0.10:
+                self.seg = rng.choice([x for x in "cde" if x != self.seg])
+                ln = {"c": ".cseg", "d": ".dseg", "e": ".eseg"}[self.seg]
+                out.append(ln); flat.append(ln)
+                continue
+            if self.seg != "c" and not (r < 0.16 or 0.38 <= r < 0.46 or 0.74 <= r < 0.78 or r >= 0.83):
+                s = self.sym()
+                ln = ("%s: .byte %d" % (s, rng.randrange(1, 5))) if self.seg == "d" else ("%s: .db %d, %d" % (s, rng.randrange(256), rng.randrange(256)))
+                out.append(ln); flat.append(ln)
+                if self.seg == "e":
+                    self.syms.append(s)
+                continue
             if r < 0.16:
                 s = self.sym()
                 ln = ".equ %s = %d" % (s, rng.randrange(0, 200))
@@ -91,7 +106,8 @@ class Gen:
                 if self.missing is not None:
                     return True
             else:
-                out.append(" nop"); flat.append(" nop")
+                ln = " nop" if self.seg == "c" else ".byte 1" if self.seg == "d" else ".db 7"
+                out.append(ln); flat.append(ln)
         if not is_main and rng.random() < 0.25:
             out.append(".exit")
             out += [" this line is never assembled", " ldi r0, 300", ".endif"][:rng.randrange(1, 4)]
